@@ -63,11 +63,14 @@ func vCatalogCheck(h *verifh.H, hub *VHub, names map[string]map[string]bool, gon
 // writes (batches and transactions, with new, known and repeated ids).
 func VerifC19Catalog(h *verifh.H) {
 	hub := VerifNewHub(h)
-	_, err := hub.Dsm.CreateDataset("a", nil)
+	// the dataset under test has an ordinary name or one with characters that need escaping in a URI
+	nameA := []string{"a", "a b/c"}[h.Choice("nameA", 2)]
+	nameC := []string{"c", "c (old)"}[h.Choice("nameC", 2)]
+	_, err := hub.Dsm.CreateDataset(nameA, nil)
 	h.Assert(err == nil, "create a")
 	_, err = hub.Dsm.CreateDataset("b", nil)
 	h.Assert(err == nil, "create b")
-	names := map[string]map[string]bool{"a": {}, "b": {}}
+	names := map[string]map[string]bool{nameA: {}, "b": {}}
 	gone := map[string]bool{}
 	pool := []string{"ns0:e1", "ns0:e2", "ns0:e3"}
 	mk := func(id string, tag string) *Entity {
@@ -75,7 +78,7 @@ func VerifC19Catalog(h *verifh.H) {
 		e.Properties["ns0:v"] = tag
 		return e
 	}
-	cur := "a"
+	cur := nameA
 	vCatalogCheck(h, hub, names, gone, "initial")
 	nops := h.Param("ops", 2)
 	for k := 0; k < nops; k++ {
@@ -114,23 +117,23 @@ func VerifC19Catalog(h *verifh.H) {
 			gone[cur] = true
 			cur = ""
 		case 4: // rename
-			if cur != "a" {
+			if cur != nameA {
 				h.Assume(false)
 			}
-			_, err := hub.Dsm.UpdateDataset("a", &UpdateDatasetConfig{ID: "c"})
+			_, err := hub.Dsm.UpdateDataset(nameA, &UpdateDatasetConfig{ID: nameC})
 			h.Assert(err == nil, "rename accepted")
-			names["c"] = names["a"]
-			delete(names, "a")
-			gone["a"] = true
-			cur = "c"
+			names[nameC] = names[nameA]
+			delete(names, nameA)
+			gone[nameA] = true
+			cur = nameC
 		case 5: // re-create
 			if cur != "" {
 				h.Assume(false)
 			}
-			_, err := hub.Dsm.CreateDataset("a", nil)
+			_, err := hub.Dsm.CreateDataset(nameA, nil)
 			h.Assert(err == nil, "re-create accepted")
-			names["a"] = map[string]bool{}
-			cur = "a"
+			names[nameA] = map[string]bool{}
+			cur = nameA
 		}
 		vCatalogCheck(h, hub, names, gone, when)
 	}
